@@ -1,6 +1,7 @@
 """Seeded changes written by independent sub-agents (they saw only the property text).
 
-usage: selftest/seeded.py verify [ID-k ...]   - confirm: applies, test-suite unchanged, demo fails with / passes without
+usage: selftest/seeded.py neutral-verify|neutral-check [ID-k ...] [--all-props]   - behaviour-preserving refactorings under neutral/<ID>-k/: every check stays silent
+       selftest/seeded.py verify [ID-k ...]   - confirm: applies, test-suite unchanged, demo fails with / passes without
        selftest/seeded.py check  [ID-k ...] [--runs N] [--all-props]  - run the property's check on a scratch copy with the change
 """
 import glob
@@ -77,8 +78,67 @@ def check(name, props, runs):
     return res
 
 
+def neutral_verify(name):
+    """a behaviour-preserving refactoring written by a sub-agent: test-suite unchanged, its own equivalence digest equal on both trees"""
+    d = os.path.join(VERIF, "neutral", name)
+    out = {}
+    s = scratch(os.path.join(d, "patch.diff"))
+    try:
+        r = run([PY, "-m", "pytest", "-q", "-p", "no:cacheprovider", "tests"], s)
+        out["tests_with_refactoring"] = r.stdout.strip().split("\n")[-1]
+        r = run([PY, os.path.join(d, "equiv.py")], s)
+        out["equiv_with"] = (r.stdout.strip().split("\n") or [""])[-1][-80:] if r.returncode == 0 else f"exit {r.returncode}"
+    finally:
+        shutil.rmtree(s, ignore_errors=True)
+    s = scratch(None)
+    try:
+        r = run([PY, os.path.join(d, "equiv.py")], s)
+        out["equiv_without"] = (r.stdout.strip().split("\n") or [""])[-1][-80:] if r.returncode == 0 else f"exit {r.returncode}"
+    finally:
+        shutil.rmtree(s, ignore_errors=True)
+    out["confirmed"] = "1 failed, 92 passed" in out["tests_with_refactoring"] and out["equiv_with"] == out["equiv_without"] and not out["equiv_with"].startswith("exit")
+    return out
+
+
+def neutral_check(name, props, runs):
+    d = os.path.join(VERIF, "neutral", name)
+    s = scratch(os.path.join(d, "patch.diff"))
+    o = tempfile.mkdtemp(prefix="vneut_out_", dir="/tmp")
+    res = {}
+    try:
+        for prop in props:
+            cmd = [os.path.join(VERIF, "bin", "check"), prop, "--no-selftest"] + (["--runs", str(runs)] if runs else [])
+            t0 = time.time()
+            r = subprocess.run(cmd, capture_output=True, text=True, env=dict(os.environ, VERIF_REPO=s, VERIF_OUT=o, VERIF_STOP_EARLY="1"))
+            clause = [l.strip() for l in r.stdout.split("\n") if l.strip().startswith("clause=")]
+            res[prop] = {"exit": r.returncode, "clause": clause[0][:260] if clause else "", "wall": round(time.time() - t0, 1),
+                         "tail": "" if r.returncode in (0, 1) else (r.stdout + r.stderr)[-400:]}
+            if r.returncode == 1:
+                keep = os.path.join("/tmp", f"neutral_alarm_{name}_{prop}")
+                shutil.rmtree(keep, ignore_errors=True)
+                shutil.copytree(os.path.join(o, "replays"), keep)
+    finally:
+        shutil.rmtree(s, ignore_errors=True)
+        shutil.rmtree(o, ignore_errors=True)
+    return res
+
+
 def main(argv):
     mode = argv[0]
+    if mode.startswith("neutral"):
+        allp = "--all-props" in argv
+        names = [a for a in argv[1:] if not a.startswith("--")] or sorted(os.listdir(os.path.join(VERIF, "neutral")))
+        sys.path.insert(0, VERIF)
+        from sims import _ENGINES
+        for name in names:
+            if mode == "neutral-verify":
+                print(name, json.dumps(neutral_verify(name)), flush=True)
+            else:
+                res = neutral_check(name, sorted(_ENGINES) if allp else [name.split("-")[0]], None)
+                for p_, r in res.items():
+                    flag = "silent" if r["exit"] == 0 else ("ALARM " if r["exit"] == 1 else "ERROR ")
+                    print(f"{flag} {name} under {p_} ({r['wall']}s) {r['clause']} {r['tail']}", flush=True)
+        return
     runs = None
     allp = "--all-props" in argv
     names = []
